@@ -1,6 +1,6 @@
 #!/bin/bash
 # TRIAGE ONLY (never used by a registered check): compile and run a DDP program against a given source tree.
-# usage: tools/run_ddp.sh <repo-dir> <program.ddp> [extern.c ...] [-- kddp flags]
+# usage: tools/run_ddp.sh <repo-dir> <program.ddp> [extern.c ...] [-- kddp flags]   (STD=1 links the Duden C library, RUN_WRAP=valgrind...)
 # Builds kddp and the C runtime of <repo-dir> into a scratch directory (cached per tree state in $TMPDIR/ddprun-cache).
 repo="$(readlink -f "$1")"; prog="$(readlink -f "$2")"; shift 2
 cs=(); flags=()
@@ -15,9 +15,19 @@ if [ ! -x "$C/kddp" ]; then
   mkdir -p "$C/ddp" && ln -sfn "$repo/lib/stdlib/Duden" "$C/ddp/Duden"
   (cd "$C" && DDPPATH="$C/ddp" ./kddp dump-list-defs -o listdefs --object) || exit 2
 fi
+std=()
+if [ -n "$STD" ]; then
+  if [ ! -f "$C/libstd.a" ]; then
+    mkdir -p "$C/std"
+    for f in "$repo"/lib/stdlib/source/DDP/*.c; do b=$(basename "$f" .c); case $b in regex|compression|winapi-path) continue;; esac
+      gcc -O1 -c -I"$repo/lib/stdlib/include" -I"$repo/lib/runtime/include" "$f" -o "$C/std/$b.o" 2>/dev/null || echo "skip $b"; done
+    ar rcs "$C/libstd.a" "$C"/std/*.o
+  fi
+  std=("$C/libstd.a")
+fi
 W=$(mktemp -d); trap 'rm -rf "$W"' EXIT
 cp "$prog" "$W/p.ddp"; objs=()
 for f in "${cs[@]}"; do cp "$f" "$W/"; gcc -O2 -c -I"$C/runtime/include" "$f" -o "$W/$(basename "$f" .c).o" || exit 2; objs+=("$W/$(basename "$f" .c).o"); done
 cd "$W" && DDPPATH="$C/ddp" "$C/kddp" kompiliere p.ddp -o p.o --list-defs-linken=false "${flags[@]}" || exit 3
-gcc -o p p.o "${objs[@]}" "$C/listdefs.o" "$C/runtime/libddpruntime.a" "$C/runtime/source/main.o" -lm || exit 2
+gcc -o p p.o "${objs[@]}" "$C/listdefs.o" "${std[@]}" "$C/runtime/libddpruntime.a" "$C/runtime/source/main.o" -lm || exit 2
 ${RUN_WRAP:-} ./p; rc=$?; echo "[exit status $rc]"
